@@ -463,6 +463,90 @@ func c03units(tier string) []mc.Unit {
 			r.Bound("locus-widths", "locus names of 1..40 characters x sequence lengths with 1..6 digits")
 		}})
 	}
+	// conventional placeholder values in every string field, one field at a time ("." is what GenBank writes for "no
+	// keywords"; a record that carries it as data must get it back)
+	us = append(us, mc.Unit{Name: "placeholder-values", Serial: true, Weight: 30, Run: func(r *mc.Recorder) {
+		memo := &c3memo{first: map[string]string{}}
+		var cnt int64
+		vals := []string{".", "..", "-", "N/A", "null", "none", "0", "1", "?", "*", "unknown", "Unknown.", "a.", ".a", "x y", "//x", "ORIGIN", "FEATURES", "LOCUS"}
+		mk := func() poly.Sequence {
+			var s poly.Sequence
+			s.Sequence = gbSeq(70, 6)
+			s.Meta.Locus = poly.Locus{Name: "built1", SequenceLength: "70", MoleculeType: "DNA", GenbankDivision: "SYN", ModificationDate: "01-JAN-2000", Linear: true}
+			s.Meta.Definition, s.Meta.Accession, s.Meta.Version, s.Meta.Keywords = "Assembled record.", "XY000001", "XY000001.1", "kw1; kw2."
+			s.Meta.Source, s.Meta.Organism = "synthetic construct", "synthetic construct"
+			s.Meta.Other = map[string]string{"COMMENT": "a comment"}
+			s.Meta.References = []poly.Reference{{Index: "1", Range: "(bases 1 to 70)", Authors: "Smith,J.", Title: "A title", Journal: "J. Verif. 1 (1), 1-2 (2000)", PubMed: "100"}}
+			f := poly.Feature{Type: "misc_feature", Attributes: map[string]string{"note": "n", "gene": "g"}}
+			f.SequenceLocation = poly.Location{Start: 0, End: 10}
+			s.AddFeature(&f)
+			return s
+		}
+		fields := []struct {
+			name string
+			set  func(s *poly.Sequence, v string)
+		}{
+			{"DEFINITION", func(s *poly.Sequence, v string) { s.Meta.Definition = v }},
+			{"ACCESSION", func(s *poly.Sequence, v string) { s.Meta.Accession = v }},
+			{"VERSION", func(s *poly.Sequence, v string) { s.Meta.Version = v }},
+			{"KEYWORDS", func(s *poly.Sequence, v string) { s.Meta.Keywords = v }},
+			{"SOURCE", func(s *poly.Sequence, v string) { s.Meta.Source = v }},
+			{"ORGANISM", func(s *poly.Sequence, v string) { s.Meta.Organism = v }},
+			{"COMMENT", func(s *poly.Sequence, v string) { s.Meta.Other["COMMENT"] = v }},
+			{"reference AUTHORS", func(s *poly.Sequence, v string) { s.Meta.References[0].Authors = v }},
+			{"reference TITLE", func(s *poly.Sequence, v string) { s.Meta.References[0].Title = v }},
+			{"reference JOURNAL", func(s *poly.Sequence, v string) { s.Meta.References[0].Journal = v }},
+			{"qualifier value", func(s *poly.Sequence, v string) { s.Features[0].Attributes["note"] = v }},
+		}
+		for _, fd := range fields {
+			for _, v := range vals {
+				if strings.HasPrefix(v, "//") && fd.name != "qualifier value" && fd.name != "DEFINITION" {
+					continue
+				}
+				if (v == "ORIGIN" || v == "FEATURES" || v == "LOCUS" || v == "//x") && fd.name != "DEFINITION" && fd.name != "qualifier value" && fd.name != "COMMENT" {
+					continue
+				}
+				x := mk()
+				fd.set(&x, v)
+				key := fmt.Sprintf("%s is %q", fd.name, v)
+				c3judge(r, memo, key, "assembled record: "+key, []string{"placeholder"}, x)
+				cnt++
+			}
+		}
+		r.Eval(cnt)
+		r.AddStates(cnt)
+		r.AddTransitions(cnt)
+		r.AddNontrivial(cnt)
+		r.Bound("placeholder-values", fmt.Sprintf("%d placeholder and keyword-like values x %d string fields, one field at a time", len(vals), len(fields)))
+	}})
+	// molecule type x sequence alphabet: the letters of the record come back as they are, whatever the declared type
+	us = append(us, mc.Unit{Name: "molecule-x-alphabet", Serial: true, Weight: 20, Run: func(r *mc.Recorder) {
+		memo := &c3memo{first: map[string]string{}}
+		var cnt int64
+		for _, mt := range []string{"DNA", "RNA", "mRNA", "tRNA", "rRNA", "ss-DNA", "ds-DNA", "ss-RNA", "cRNA"} {
+			for _, alpha := range []string{"acgt", "acgu", "acgtu", "acgtn", "acgtrykmswbdhvn", "augc"} {
+				for _, n := range []int{1, 59, 60, 61, 130} {
+					var s poly.Sequence
+					s.Sequence = lcgString(alpha, n, uint32(n))
+					s.Meta.Locus = poly.Locus{Name: "built1", SequenceLength: strconv.Itoa(n), MoleculeType: mt, GenbankDivision: "SYN", ModificationDate: "01-JAN-2000", Linear: true}
+					s.Meta.Definition, s.Meta.Accession, s.Meta.Version, s.Meta.Keywords = "Assembled record.", "XY000001", "XY000001.1", "."
+					s.Meta.Source, s.Meta.Organism = "synthetic construct", "synthetic construct"
+					s.Meta.Other = map[string]string{}
+					f := poly.Feature{Type: "misc_feature", Attributes: map[string]string{"note": "n"}}
+					f.SequenceLocation = poly.Location{Start: 0, End: 1}
+					s.AddFeature(&f)
+					key := fmt.Sprintf("molecule type %s, %d letters over %q", mt, n, alpha)
+					c3judge(r, memo, key, "assembled record: "+key, []string{"molecule"}, s)
+					cnt++
+				}
+			}
+		}
+		r.Eval(cnt)
+		r.AddStates(cnt)
+		r.AddTransitions(cnt)
+		r.AddNontrivial(cnt)
+		r.Bound("molecule-x-alphabet", "9 molecule types x 6 alphabets x 5 lengths")
+	}})
 	us = append(us, mc.Unit{Name: "files", Weight: 10, Run: func(r *mc.Recorder) {
 		dir, err := os.MkdirTemp("", "c03")
 		if err != nil {
